@@ -24,9 +24,9 @@ tvars == <<l, val, dummy>>
 \* the system modules' operators, instantiated without their state
 TL == INSTANCE TimeLock WITH Keys <- {}, Ids <- {}, Lens <- {}, Depth <- 0, MaxN <- 0, Deviations <- {}, Emit <- FALSE,
                              phase <- dummy, ct <- dummy, last <- dummy
-SC == INSTANCE SignCrypt WITH Keys <- {}, Lens <- {}, Depth <- 0, MaxN <- 0, Modes <- {}, Deviations <- {}, Emit <- FALSE,
+SC == INSTANCE SignCrypt WITH Keys <- {}, Lens <- {}, Depth <- 0, MaxN <- 0, BigTN <- {}, Modes <- {}, Deviations <- {}, Emit <- FALSE,
                               phase <- dummy, ct <- dummy, other <- dummy, deal <- dummy, last <- dummy
-EG == INSTANCE ElGamal WITH Keys <- {}, Plains <- {}, MaxSum <- 0, MaxN <- 0, Depth <- 0, Emit <- FALSE,
+EG == INSTANCE ElGamal WITH Keys <- {}, Plains <- {}, MaxSum <- 0, MaxN <- 0, BigTN <- {}, Depth <- 0, Emit <- FALSE,
                             phase <- dummy, pf <- dummy, last <- dummy
 
 \* the proof-of-knowledge operators as the code is (MessageAugmentation commitments hash the plain message: D6)
